@@ -383,6 +383,11 @@ H("state", "c17_run_entry_keeps_the_permit", needs_segment=["sc_run_head", "sc_v
   what="whatever run() does before dispatching on the state neither takes the permit out of the machine nor returns it (run() is entered first in state Validated, long before the MPC task takes the permit over)", bounds="state Validated holding a permit", functions=["state::PolicyState::run (statements before the match on the state; none on the pinned tree)"], panic_prop="C17", stubs=[RS], est_gb=2)
 
 
+for _n, _w in (("c15_nothing_can_follow_the_result", "Ok([true])"), ("c15_nothing_can_follow_the_error", "Err(EmptyMsg)")):
+    H("state", _n, needs_segment=["sc_mpc_result_then"],
+      what="the task's mpc future behind polytune::mpc(), with the actor's command queue full: the notification is sent and the future then finishes without another await (no point at which the select! could still switch to the cancel arm and send a second notification)", bounds=f"mpc() outcome {_w}, destination present, command queue full (enqueue pending for good)", functions=["state::PolicyState::run (mpc future of the spawned task behind the call of polytune::mpc)"], panic_prop="C15", stubs=[RS], est_gb=2)
+
+
 def by_prefix(*prefixes, tier=None):
     return [h for n, h in ALL.items() if any(n.startswith(p) for p in prefixes) and (tier is None or h["tier"] == tier)]
 
@@ -569,12 +574,12 @@ PROPS["C17"] = dict(
 PROPS["C15"] = dict(
     level="model_checking",
     level_text="Bounded model checking of (a) cancel() as a single command against a machine in each state without a running MPC task (Init, ValidateRequested, AwaitingValidation, Validated, SendingConstsCompleted, Running; whole body of cancel() and send_cancel() cut, awaits polled once): answered exactly once, and once it answers Ok the destination of a scheduled policy has been sent exactly one Cancelled notification, nothing is enqueued, the machine and its permit are gone; (b) one schedule point on tokio's real Notify: the arm of cancel() for state Executing, cut from the async function on every run (await = one poll, the cut stops at a pending await), run against an MPC task that has been spawned but not polled yet - cancel() neither completes nor answers Ok before the task acknowledges, and the cancel notification is not lost (the task finds it when it registers); after the acknowledgement cancel() answers Ok exactly once.",
-    level_note="Partial: cancel as ONE command from a quiescent machine per state, plus ONE schedule point in Executing (cancel processed right after the MPC task was spawned - the race the property text names) and its counterpart. Also the task's side of a cancellation (cancel arm of its select! + what follows): notification first, acknowledgement after, once. NOT covered: state SendingConsts (awaits the constants task), cancel racing with a handler in flight, the other arm of the select! (e.g. a cancel that arrives while the finished task is still enqueuing Stop), the task side (tokio::select!), 'exactly one notification, nothing afterwards' and the permit as whole-run statements, multi-threaded runtimes. " + SEG,
+    level_note="Partial: cancel as ONE command from a quiescent machine per state, plus ONE schedule point in Executing (cancel processed right after the MPC task was spawned - the race the property text names) and its counterpart. Also the task's side of a cancellation (cancel arm of its select! + what follows): notification first, acknowledgement after, once. NOT covered: state SendingConsts (awaits the constants task), cancel racing with a handler in flight, a cancel that wins the select! while the result notification itself is in flight, the task side (tokio::select!), 'exactly one notification, nothing afterwards' and the permit as whole-run statements, multi-threaded runtimes. " + SEG,
     explanation="Kani/CBMC on the Executing arm of cancel() with tokio::sync::Notify compiled in.",
     outside="all other interleavings of cancel with the actor and the MPC task.",
     assumptions=[FMT, TRACING, ANS, "await = one poll with a no-op waker; a pending await ends the cut (EnvTry)"],
     harnesses=by_prefix("c15_"),
-    segments=["sc_cancel_executing", "sc_cancel", "sc_send_cancel", "sc_task_cancel_arm"],
+    segments=["sc_cancel_executing", "sc_cancel", "sc_send_cancel", "sc_task_cancel_arm", "sc_mpc_result_then"],
 )
 PROPS["C13"] = dict(
     level="model_checking",
